@@ -573,6 +573,20 @@ def _shape_pools(repo):
                 for el in n.elts:
                     if isinstance(el, ast.Constant) and type(el.value) is int and 0 <= el.value <= 0xFF:
                         ops.add(el.value)
+    # template tables written as module-level constants: `(0x76, 0xA9, Push(20), 0x88, 0xAC)`, `{"p2wpkh": (0, 20)}` ...
+    for name, node in m.constants.items():
+        for n in ast.walk(node):
+            if isinstance(n, (ast.Tuple, ast.List)):
+                ints = [el.value for el in n.elts if isinstance(el, ast.Constant) and type(el.value) is int and 0 <= el.value <= 0xFF]
+                calls = [el for el in n.elts if isinstance(el, ast.Call) and len(el.args) == 1 and isinstance(el.args[0], ast.Constant) and type(el.args[0].value) is int]
+                if calls:
+                    ops.update(ints)
+                    lens.update(c.args[0].value for c in calls if 0 <= c.args[0].value <= 0xFF)
+                    counts.add(len(n.elts))
+    # the standard templates themselves (BIP13 / BIP141 / BIP341): the cells of the specification are always among those evaluated
+    ops |= {0x00, 0x51, 0x76, 0xA9, 0x87, 0x88, 0xAC}
+    lens |= {20, 32}
+    counts |= {2, 3, 5}
     fresh_op = next(v for v in (0x61, 0x6A, 0x52, 0x75) + tuple(range(1, 256)) if v not in ops)
     fresh_len = next(v for v in (33, 21, 31, 19, 64) if v not in lens)
     fresh_count = next(v for v in range(1, 9) if v not in counts)
